@@ -22,9 +22,9 @@ Print Assumptions C11_distinct_sound_refuted.
         (enumeration numbering, refuted below); the conclusion allows [Crashes]
         because the code does not terminate on every module (refuted below) ---- *)
 Theorem C11_distinct_complete_partial : forall m,
-  tagging_wf m -> distinct_spec m -> enums_plain m -> chains_short m ->
+  tagging_wf m -> distinct_spec m -> enums_plain m ->
   check m = Accept \/ check m = Crashes.
-Proof. exact distinct_complete_partial. Qed.
+Proof. exact distinct_complete_partial'. Qed.
 Print Assumptions C11_distinct_complete_partial.
 
 Theorem C11_distinct_complete_refuted :
